@@ -141,9 +141,17 @@ func (c *Channel) Deliver(out, x []byte) ([]byte, error) {
 	now := time.Now()
 	var appData []byte
 	if err := c.doThenSend(func() ([]byte, error) {
+		isInitHello := IsInitHello(x)
+		helloID := blake2b.Sum256(x)
 		for i, se := range c.sessions {
 			s := se.Session
 			if s == nil {
+				continue
+			}
+			if isInitHello && se.ID != helloID {
+				// An InitHello only concerns the session it created (retransmission).
+				// Any other session would ignore it and answer with its own stale handshake
+				// message, which hides the new handshake and can bounce forever between peers.
 				continue
 			}
 			readyBefore := s.IsReady()
